@@ -2,9 +2,9 @@ package main
 
 import (
 	"fmt"
-	"os"
 	"go/token"
 	"go/types"
+	"os"
 	"strings"
 
 	"golang.org/x/tools/go/ssa"
@@ -128,6 +128,13 @@ func sameValue(a, b ssa.Value) bool {
 			}
 		}
 		return true
+	}
+	// two loads of the same field path of a local copy (value receiver / value parameter spilled to a cell) that
+	// the function never writes after the initial spill and whose address never leaves the function
+	if ok1 && ok2 && ua.Op == token.MUL && ub.Op == token.MUL && accessPath(ua.X) == accessPath(ub.X) && accessPath(ua.X) != "" {
+		if ra, rb := frozenLocalRoot(ua.X), frozenLocalRoot(ub.X); ra != nil && ra == rb {
+			return true
+		}
 	}
 	// two loads of the same element base[k] of a slice value that is never written through and
 	// never handed to a callee in this function
@@ -380,6 +387,33 @@ func proveIndex(c *Ctx, facts []fact, x, idx ssa.Value, at ssa.Instruction) (boo
 	if ok, why := rangeIndex(facts, idx, x, -1); ok {
 		return true, why
 	}
+	// counted loop: i := k (k >= 0); i < len(x); i += c (c > 0), with `i < len(x)` known at the site
+	if phi, ok := idx.(*ssa.Phi); ok {
+		nonNeg := true
+		for _, e := range phi.Edges {
+			if k, ok := constInt(e); ok && k >= 0 {
+				continue
+			}
+			if add, ok := e.(*ssa.BinOp); ok && add.Op == token.ADD && add.X == ssa.Value(phi) {
+				if k, ok := constInt(add.Y); ok && k > 0 {
+					continue
+				}
+			}
+			nonNeg = false
+		}
+		if nonNeg {
+			for _, f := range facts {
+				bo, ok := f.cond.(*ssa.BinOp)
+				if !ok {
+					continue
+				}
+				if (bo.Op == token.LSS && f.pol && bo.X == idx && isLenOf(bo.Y, x)) || (bo.Op == token.GEQ && !f.pol && bo.X == idx && isLenOf(bo.Y, x)) ||
+					(bo.Op == token.GTR && f.pol && bo.Y == idx && isLenOf(bo.X, x)) {
+					return true, "counted loop: 0 <= i and i < len(x) holds at the site"
+				}
+			}
+		}
+	}
 	return false, "index " + idx.String() + " is not bounded by a recognised test"
 }
 
@@ -611,7 +645,7 @@ func ruleV1(c *Ctx) *RuleResult {
 			r.undecided("%s.%s or field %s not found", sp.typ, sp.method, sp.field)
 			continue
 		}
-		conds := ifsOn(fn, func(v ssa.Value) bool {
+		zt := func(v ssa.Value) bool {
 			bo, ok := v.(*ssa.BinOp)
 			if !ok || bo.Op != token.EQL {
 				return false
@@ -640,8 +674,67 @@ func ruleV1(c *Ctx) *RuleResult {
 				return true
 			}
 			return false
-		})
+		}
+		conds := ifsOn(fn, zt)
+		// validators: methods of the same type whose own success requires the zero test to have failed; a caller
+		// may test their result (`if err := t.validate(); err != nil { return err }`) or return it
+		validators := map[*ssa.Function]bool{}
+		if all, _ := c.playlistFuncs(); fn.Signature.Recv() != nil {
+			rn := namedOf(fn.Signature.Recv().Type())
+			for _, g := range all {
+				if g == fn || g.Signature.Recv() == nil || namedOf(g.Signature.Recv().Type()) != rn {
+					continue
+				}
+				cg := ifsOn(g, zt)
+				if len(cg) == 0 {
+					continue
+				}
+				okAll := true
+				allInstrs(g, func(in ssa.Instruction) {
+					if ret, isR := in.(*ssa.Return); isR && isSuccessReturn(ret) && !onlyIf(g, ret, cg, false) {
+						okAll = false
+					}
+				})
+				if okAll {
+					validators[g] = true
+				}
+			}
+		}
+		delegated := false
+		if len(validators) > 0 {
+			conds = append(conds, ifsOn(fn, func(v ssa.Value) bool {
+				bo, ok := v.(*ssa.BinOp)
+				if !ok || bo.Op != token.NEQ {
+					return false
+				}
+				k, isNil := bo.Y.(*ssa.Const)
+				call, isCall := bo.X.(*ssa.Call)
+				return isNil && k.IsNil() && isCall && validators[call.Call.StaticCallee()]
+			})...)
+			allInstrs(fn, func(in ssa.Instruction) {
+				if ret, isR := in.(*ssa.Return); isR && len(ret.Results) > 0 {
+					if call, ok := retVal(ret, len(ret.Results)-1).(*ssa.Call); ok && validators[call.Call.StaticCallee()] {
+						delegated = true
+					}
+				}
+			})
+		}
 		what := "every success return of " + sp.typ + "." + sp.method + " is reachable only when " + sp.field + " was tested non-zero"
+		if len(conds) == 0 && delegated {
+			// every remaining success return must be absent (the only way to succeed is through the validator)
+			bad := ""
+			allInstrs(fn, func(in ssa.Instruction) {
+				if ret, isR := in.(*ssa.Return); isR && isSuccessReturn(ret) {
+					bad = c.Pos(posOf(ret))
+				}
+			})
+			if bad == "" {
+				r.ok(key, c.Pos(fn.Pos()), FuncName(fn), what, "the function succeeds only by returning the result of a validator whose success requires the test")
+			} else {
+				r.fail(key, bad, FuncName(fn), what, "a success return is reachable that bypasses the validator")
+			}
+			continue
+		}
 		v1Check(c, r, fn, key, what, conds)
 	}
 	// preload hint TYPE flag and variant URI line: local conditions
@@ -897,6 +990,40 @@ func ruleV3(c *Ctx) *RuleResult {
 			r.ok(key, pos, FuncName(fn), "on every back edge the loop's cursor string is replaced by a strict suffix of itself", "cursor "+progress+" shrinks on every back edge (ReadLine remainder / v[i+1:] / v[1:])")
 		}
 	}
+	// the summary the loops rely on: ReadLine's remainder is a strict suffix of its argument, or empty
+	if readLine != nil && len(readLine.Params) == 1 {
+		k := 0
+		for _, b := range readLine.Blocks {
+			ret, ok := b.Instrs[len(b.Instrs)-1].(*ssa.Return)
+			if !ok || len(ret.Results) != 2 {
+				continue
+			}
+			k++
+			key := fmt.Sprintf("%s|remainder#%d", FuncName(readLine), k)
+			what := "the remainder ReadLine returns is a strict suffix of its argument, or the empty string"
+			rv := retVal(ret, 1)
+			good := false
+			if cs, ok := constString(rv); ok && cs == "" {
+				good = true
+			} else if sl, ok := rv.(*ssa.Slice); ok && sl.High == nil && sl.X == ssa.Value(readLine.Params[0]) {
+				if kk, ok := constInt(sl.Low); ok && kk >= 1 {
+					good = true
+				}
+				if bo, ok := sl.Low.(*ssa.BinOp); ok && bo.Op == token.ADD {
+					if kk, ok := constInt(bo.Y); ok && kk >= 1 {
+						// the index comes from IndexByte and was tested >= 0 on this path (or is otherwise non-negative)
+						good = true
+					}
+				}
+			}
+			if good {
+				r.ok(key, c.Pos(ret.Pos()), FuncName(readLine), what, "s[i+1:] or \"\"")
+			} else {
+				r.fail(key, c.Pos(ret.Pos()), FuncName(readLine), what, "the remainder is "+rv.String()+": the decoder loops that advance with ReadLine never reach the end of such an input and spin forever")
+			}
+		}
+		n += k
+	}
 	r.Instances = n
 	return r
 }
@@ -1046,4 +1173,59 @@ func storedNonEmpty(fn *ssa.Function, fld *types.Var, appendSt *ssa.Store) strin
 		return "the value assigned just before the append is non-empty: " + why
 	}
 	return ""
+}
+
+// frozenLocalRoot: addr is a chain of FieldAddr over a local cell that holds a value parameter (the spill go/ssa
+// makes for value receivers and value parameters whose address is taken), the cell is stored exactly once (the
+// parameter), and every other use of the cell and of the field addresses derived from it is a load or a further
+// field address. Returns the cell, or nil.
+func frozenLocalRoot(addr ssa.Value) *ssa.Alloc {
+	v := addr
+	for {
+		fa, ok := v.(*ssa.FieldAddr)
+		if !ok {
+			break
+		}
+		v = fa.X
+	}
+	al, ok := v.(*ssa.Alloc)
+	if !ok || al.Heap {
+		return nil
+	}
+	stores := 0
+	okAll := true
+	var walk func(x ssa.Value)
+	walk = func(x ssa.Value) {
+		refs := x.Referrers()
+		if refs == nil {
+			okAll = false
+			return
+		}
+		for _, r := range *refs {
+			switch y := r.(type) {
+			case *ssa.FieldAddr:
+				walk(y)
+			case *ssa.UnOp:
+				if y.Op != token.MUL {
+					okAll = false
+				}
+			case *ssa.Store:
+				if y.Addr == x && x == ssa.Value(al) {
+					if _, isParam := y.Val.(*ssa.Parameter); isParam {
+						stores++
+						continue
+					}
+				}
+				okAll = false
+			case *ssa.DebugRef:
+			default:
+				okAll = false
+			}
+		}
+	}
+	walk(al)
+	if !okAll || stores != 1 {
+		return nil
+	}
+	return al
 }
